@@ -165,7 +165,7 @@ def run_trainer(sg, E, NB, NV, NT, evaluator_mode, callbacks, seed, do_fit=True,
     trainer.compile(CriterionProxy(crit, rec), OptProxy(opt, rec), evaluator)
     rec.trainer = trainer
     trace = dict(cfg=dict(E=E, NB=NB, NV=NV, NT=NT), tr0=bool(model.training), fit=bool(do_fit), ev=rec.ev)
-    info = dict(E=E, NB=NB, NV=NV, NT=NT, evaluator=bool(evaluator_mode), callbacks=bool(callbacks), seed=seed)
+    info = dict(E=E, NB=NB, NV=NV, NT=NT, evaluator=bool(evaluator_mode), callbacks=callbacks, seed=seed)
 
     # hooks that live outside the repository: Tensor.backward wrapper and the progress bar
     orig_bw = sg.Tensor.backward
@@ -187,7 +187,10 @@ def run_trainer(sg, E, NB, NV, NT, evaluator_mode, callbacks, seed, do_fit=True,
     try:
         if do_fit:
             kw = {}
-            if callbacks:
+            if callbacks == "flip":
+                # callbacks that leave the model in the "wrong" mode (e.g. an evaluation pass in on_train_epoch)
+                kw = dict(on_train_epoch=lambda m, l: (cb_calls.append("t"), m.eval()), on_validation_epoch=lambda m, l: (cb_calls.append("v"), m.train()))
+            elif callbacks:
                 kw = dict(on_train_epoch=lambda m, l: cb_calls.append("t"), on_validation_epoch=lambda m, l: cb_calls.append("v"))
             hist = trainer.fit(train_loader, E, validation_loader=val_loader, **kw)
             lens = [len(v) for v in hist.values()] or [0]
